@@ -61,7 +61,7 @@ def _build():
             continue
         w = wkeys[n % 5]
         n += 1
-        quick = (k1, k2) in (('a3', 'NR'), ('star', 'a1'), ('lits', 'astar'), ('unsplit', 'a2'), ('NR', 'untail'), ('len', 'star'), ('a1', 'a1'), ('unpair', 'NF'))
+        quick = (k1, k2) in (('star', 'untail'), ('astar', 'unsplit'), ('a3', 'NR'), ('star', 'a1'), ('lits', 'astar'), ('unsplit', 'a2'), ('NR', 'untail'), ('len', 'star'), ('a1', 'a1'), ('unpair', 'NF'))
         _add('sel[%s,%s|w=%s]' % (k1, k2, w), Q(items=[ITEMS[k1], ITEMS[k2]], where=WHERES.get(w)), quick=quick)
     # triples: a covering set
     triples = [('a2', 'a1', 'NR'), ('star', 'lit7', 'a.*'), ('a1', 'unsplit', 'NF'), ('lits', 'a3', 'star'), ('cat1x', 'arr2', 'untail'), ('astar', 'star', 'a1'),
@@ -89,6 +89,7 @@ def _build():
 _build()
 
 # shapes: rows as strings of cell codes (o = Optional[str])
+RAGGED_S = ['cc', 'c', 'ccc']   # ragged, str cells only (UNNEST arguments call str methods)
 SHAPES_QUICK = [['oo', 'o'], ['o', 'ooo', ''], ['ooo', 'so']]
 SHAPES_ALL = [[], ['ooo'], [''], ['oo', 'o'], ['o', 'oo'], ['oo', 'oo'], ['', 'o'], ['ooo', 'o'], ['o', 'ooo', ''], ['oo', '', 'ooo'], ['o', 'o', 'o'], ['oo', 'o', 'oo'], ['ooo', 'oo', 'o']]
 JSHAPES_QUICK = [(['ks', 'ks'], ['ks', 'ks'])]
@@ -107,17 +108,17 @@ def obligations(tier, seed):
             q = CASES[name]
             if q.join is not None:
                 a, b = JSHAPES_QUICK[0]
-                obs.append(qh.query_obl('C01', name, q, a, b, krange=2, timeout=150))
+                obs.append(qh.query_obl('C01', name, q, a, b, krange=2, timeout=150, check_sources=True, mutate_output=True))
             else:
-                obs.append(qh.query_obl('C01', name, q, SHAPES_QUICK[2] if name.startswith('except[dup') else SHAPES_QUICK[(i + seed) % 2], timeout=150))
+                obs.append(qh.query_obl('C01', name, q, SHAPES_QUICK[2] if name.startswith('except[dup') else (RAGGED_S if ('star' in name and 'un' in name) else SHAPES_QUICK[(i + seed) % 2]), timeout=150, check_sources=True, mutate_output=True))
     else:
         for i, name in enumerate(THOROUGH):
             q = CASES[name]
             if q.join is not None:
                 for j in range(2):
                     a, b = JSHAPES_ALL[(i + j * 3 + seed) % len(JSHAPES_ALL)]
-                    obs.append(qh.query_obl('C01', name, q, a, b, krange=2, timeout=600))
+                    obs.append(qh.query_obl('C01', name, q, a, b, krange=2, timeout=600, check_sources=True, mutate_output=True))
             else:
                 for j in range(2):
-                    obs.append(qh.query_obl('C01', name, q, SHAPES_ALL[(i * 2 + j + seed) % len(SHAPES_ALL)], timeout=400))
+                    obs.append(qh.query_obl('C01', name, q, SHAPES_ALL[(i * 2 + j + seed) % len(SHAPES_ALL)], timeout=400, check_sources=True, mutate_output=True))
     return obs
